@@ -397,6 +397,82 @@ fn check_random(tape: &[u32]) -> CheckResult {
     }
 }
 
+/// Second generator: whole well-formed sprites (all cel kinds incl. linked cels, conformant chunk
+/// shuffles, ignorable chunks between an entity and its record); every entity's record must be the
+/// model's and entities without one must report none.
+fn check_sprite(tape: &[u32]) -> CheckResult {
+    use crate::gen::{build_plan, build_sprite, GenCfg};
+    let mut t = Tape::new(tape);
+    let mut c = GenCfg::full();
+    c.canvas_typ = 8;
+    c.max_cel = 4;
+    c.tile_aligned = false;
+    c.max_frames = 4;
+    let s = build_sprite(&mut t, &c);
+    let plan = build_plan(&mut t);
+    let enc = encode(&s, &plan);
+    let detail = || json!({"model": super::c01::summarize(&s), "plan": format!("{:?}", plan), "input_hex": if enc.bytes.len() < 8000 { hex(&enc.bytes) } else { String::new() }});
+    let f = AsepriteFile::read(&enc.bytes[..]).map_err(|e| Failure::new("load-error", format!("well-formed file failed to load: {}", e)).with(detail()))?;
+    let m = |u: &Option<UserData>| -> Ud { u.as_ref().map(|u| (u.text.clone(), u.color)) };
+    let mut records = 0u64;
+    let mut linked_with = false;
+    for (i, l) in s.layers.iter().enumerate() {
+        let got = ud(f.layer(i as u32).user_data());
+        if got != m(&l.user_data) {
+            return Err(Failure::new("layer-user-data", format!("layer {} user data {:?}, expected {:?}", i, got, m(&l.user_data))).with(detail()));
+        }
+        records += l.user_data.is_some() as u64;
+    }
+    for fi in 0..s.frames.len() {
+        for li in 0..s.layers.len() {
+            let want = s.cel(fi, li).map(|c| m(&c.user_data)).unwrap_or(None);
+            let got = ud(f.cel(fi as u32, li as u32).user_data());
+            if got != want {
+                let kind = s.cel(fi, li).map(|c| match c.content { CelContent::Link { frame } => format!("linked to frame {}", frame), CelContent::Image { .. } => "image".into(), CelContent::Tilemap { .. } => "tilemap".into() });
+                return Err(Failure::new("cel-user-data", format!("cel({},{}) [{:?}] user data {:?}, expected {:?}", fi, li, kind, got, want)).with(detail()));
+            }
+            if let Some(c) = s.cel(fi, li) {
+                records += c.user_data.is_some() as u64;
+                if let CelContent::Link { frame } = c.content {
+                    let tgt = s.cel(frame as usize, li).map(|t| m(&t.user_data)).unwrap_or(None);
+                    if tgt != want {
+                        linked_with = true;
+                    }
+                }
+            }
+        }
+    }
+    for (i, sl) in s.slices.iter().enumerate() {
+        let got = ud(f.slices()[i].user_data.as_ref());
+        if got != m(&sl.user_data) {
+            return Err(Failure::new("slice-user-data", format!("slice {} user data {:?}, expected {:?}", i, got, m(&sl.user_data))).with(detail()));
+        }
+        records += sl.user_data.is_some() as u64;
+    }
+    let ntags = s.tags.as_ref().map_or(0, |t| t.len());
+    for i in 0..ntags {
+        let want = s.tag_user_data.get(i).map(|u| (u.text.clone(), u.color));
+        let got = ud(f.tag(i as u32).user_data());
+        if got != want {
+            return Err(Failure::new("tag-user-data", format!("tag {} user data {:?}, expected {:?}", i, got, want)).with(detail()));
+        }
+    }
+    records += s.tag_user_data.len() as u64;
+    let want = if s.legacy.is_some() { m(&s.sprite_user_data) } else { None };
+    let got = ud(f.sprite_user_data());
+    if got != want {
+        return Err(Failure::new("sprite-user-data", format!("sprite user data {:?}, expected {:?}", got, want)).with(detail()));
+    }
+    let mut o = Outcome::new(records >= 1 && (plan.ignorable > 0 || plan.shuffle || linked_with), hash_bytes(&enc.bytes));
+    o.labels.push("whole-sprite".into());
+    if linked_with {
+        o.labels.push("linked-cel-record-differs-from-target".into());
+    }
+    o.counters.push(("user_data_records", records));
+    o.sample = Some(json!({"whole_sprite": super::c01::summarize(&s), "records": records}));
+    Ok(o)
+}
+
 fn parse_word(s: &str) -> Vec<Sym> {
     let mut v = vec![];
     for tok in s.trim_matches(|c| c == '[' || c == ']').split(", ") {
@@ -420,7 +496,7 @@ fn parse_word(s: &str) -> Vec<Sym> {
 
 pub fn run(run: &mut Run) {
     let maxlen = if run.thorough() { 7 } else { 6 };
-    run.rule = format!("exhaustive: every word of length 1..={} over {{layer, cel (lowest free layer), cel (highest free layer: cel chunks out of layer order), slice, tags(0..3), legacy palette 0x0004, legacy palette 0x0011, new palette, ignorable, user-data, frame-break}} satisfying the statement's side conditions (record has an attachable predecessor, no entity gets two records, <= n records after tags(n), one tags chunk in frame 0, layers in frame 0, a cel's layer exists, one cel per frame x layer); record flavour (text/colour/both/neither) and ignorable kind drawn from the seed. Oracle: a context state machine written from the statement predicts the record of every layer, cel, slice, tag and the sprite (None for entities without one). Plus random words of length 7-60 from proptest tapes. non-trivial: >= 1 record and (>= 2 entity kinds or a non-entity chunk directly before a record); distinct by (word, seed)", maxlen);
+    run.rule = format!("exhaustive: every word of length 1..={} over {{layer, cel (lowest free layer), cel (highest free layer: cel chunks out of layer order), slice, tags(0..3), legacy palette 0x0004, legacy palette 0x0011, new palette, ignorable, user-data, frame-break}} satisfying the statement's side conditions (record has an attachable predecessor, no entity gets two records, <= n records after tags(n), one tags chunk in frame 0, layers in frame 0, a cel's layer exists, one cel per frame x layer); record flavour (text/colour/both/neither) and ignorable kind drawn from the seed. Oracle: a context state machine written from the statement predicts the record of every layer, cel, slice, tag and the sprite (None for entities without one). Plus random words of length 7-60 from proptest tapes, plus whole generated sprites (all cel kinds incl. linked cels whose record differs from their target's, conformant chunk shuffles, ignorable chunks before records) checked record by record against the model. non-trivial: >= 1 record and (>= 2 entity kinds or a non-entity chunk directly before a record); distinct by (word, seed)", maxlen);
     run.exhaustive = Some(true);
     let words = enumerate(maxlen);
     let seed = run.seed;
@@ -457,11 +533,20 @@ pub fn run(run: &mut Run) {
     run.extra.insert("exhaustive_words".into(), json!(words.len()));
     let (lanes, n) = if run.thorough() { (16, 20000) } else { (16, 1500) };
     run_tapes(run, lanes, n, 300, &check_random);
+    let n2 = if run.thorough() { 20000 } else { 2500 };
+    run_tapes(run, lanes, n2, 1200, &check_sprite);
 }
 
 pub fn replay(case: &serde_json::Value) -> CheckResult {
     if let Some(t) = tape_from_case(case) {
-        return check_guarded(|| check_random(&t));
+        // a tape is either a random long word or a whole sprite; replay both oracles
+        let a = check_guarded(|| check_random(&t));
+        let b = check_guarded(|| check_sprite(&t));
+        return match (a, b) {
+            (Err(e), _) if e.signature != "harness" => Err(e),
+            (_, Err(e)) => Err(e),
+            (a, _) => a,
+        };
     }
     let w = parse_word(case.get("word").and_then(|w| w.as_str()).unwrap_or(""));
     let seed = case.get("seed").and_then(|s| s.as_u64()).unwrap_or(0);
